@@ -154,8 +154,8 @@ def run(ctx):
     bad = [(f, i) for (f, i) in callers if f.bname not in (J + '::value::write', J + '::value::write_value')]
     ctx.check(len(callers) >= 3 and not bad, R6, 'write_value:only-reached-through-write', 'a writer calls write_value() directly, bypassing the C-locale bracket: %s' % [f.bname for f, _ in bad], bad[0][0].loc(bad[0][1]) if bad else wr.where)
     for f in P.by_bname.get(J + '::value::save', []):
-        c = [i for i in f.calls() if f.bcallee(i) == J + '::value::write']
-        ctx.check(len(c) == 1, R6, 'value::save/%d:goes-through-write' % len(f.params), 'save does not go through write()', f.where)
+        c = [i for i in f.calls() if f.bcallee(i) == J + '::value::write' or (f.bcallee(i) == J + '::value::save' and f.N(i).get('callee') != f.id)]
+        ctx.check(len(c) == 1 and q.always_before_exit(f, c), R6, 'value::save/%d:goes-through-write' % len(f.params), 'save does not go through write()', f.where)
     tk = [f for f in P.fns.values() if 'tockenizer' in (f.record or '') and f.kind in ('ctor', 'dtor')]
     ctx.require(len(tk) == 2, 'C11.R6: tockenizer ctor/dtor not found')
     for f in tk:
